@@ -2,6 +2,7 @@ package verifiable
 
 import (
 	"fmt"
+	"sort"
 	"strings"
 
 	"github.com/iden3/go-schema-processor/v2/merklize"
@@ -192,8 +193,16 @@ func GetSerializationAttrFromParsedContext(ldCtx *ld.Context,
 		return "", errors.New("terms definitions is not of correct type")
 	}
 
-	for typeName, typeDef := range termDefM {
-		typeDefM, ok := typeDef.(map[string]any)
+	// visit terms in a fixed order: the result must not depend on the
+	// iteration order of the map
+	typeNames := make([]string, 0, len(termDefM))
+	for typeName := range termDefM {
+		typeNames = append(typeNames, typeName)
+	}
+	sort.Strings(typeNames)
+
+	for _, typeName := range typeNames {
+		typeDefM, ok := termDefM[typeName].(map[string]any)
 		if !ok {
 			// not a type
 			continue
@@ -203,13 +212,13 @@ func GetSerializationAttrFromParsedContext(ldCtx *ld.Context,
 			// not a type
 			continue
 		}
-		typeCtxM, ok := typeCtx.(map[string]any)
-		if !ok {
-			return "", errors.New("type @context is not of correct type")
-		}
 		typeID, _ := typeDefM["@id"].(string)
 		if typeName != tp && typeID != tp {
 			continue
+		}
+		typeCtxM, ok := typeCtx.(map[string]any)
+		if !ok {
+			return "", errors.New("type @context is not of correct type")
 		}
 
 		serStr, _ := typeCtxM[serializationFullKey].(string)
